@@ -159,6 +159,9 @@ class Sim:
         self.preemptions = 0
         # bytecode-level pre-emption (inside one source statement, e.g. between the load and the store of
         # `self.x += n`): in traced files a switch may happen right before an attribute / item / global STORE
+        import os as _os
+        if _os.environ.get("VERIF_NO_OPCODES"):
+            trace_opcodes = False       # fallback mode of the runner after a worker died (see runner.fan_out)
         self.trace_opcodes = trace_opcodes
         self.trace_funcs = trace_funcs      # None: every function of the traced files; else a set of function names
         self.p_preempt_store = p_preempt_store
